@@ -2,7 +2,8 @@
 PROPS = {
     "C14": dict(
         module="UpfVerif.Props.C14",
-        streams=[dict(name="gtpu")],
+        streams=[dict(name="gtpu"),
+                 dict(name="buf", args=["net=214"], shards=2, shards_thorough=6, seed_per_shard=True, timeout=900, timeout_thorough=3000)],
         rule="grid QFI 0..63 x PDU type 0..15 x with/without container x payload lengths (alignment boundaries, "
              "sampled lengths; all 0..1500 in the thorough tier) + out-of-range QFI/PDU-type bytes; distinct = distinct input lines",
         exhaustive_quick=True, exhaustive_thorough=True,
@@ -13,7 +14,9 @@ PROPS = {
                    "tied to internal/gtpv1/msg.go by an exhaustive differential run over the QFI x PDU-type x container grid and payload lengths, "
                    "and the reference decoder is also run on the implementation's own bytes.",
         level_note="Trusted: Lean kernel; the hand-written reference decoder (reading of TS 29.281 §5.1, TS 38.415 §5.5.2); the hand-written model "
-                   "of msg.go (checked against the implementation on every run, not proved equal); harness + upfdrv. WritePacket's socket write is not modelled.",
+                   "of msg.go (checked against the implementation on every run, not proved equal); harness + upfdrv. "
+                   "The message WritePacket assembles is observed on the wire: the S-full 'buf' stream (real Gtp5g.WritePacket, UDP sink as gNB) compares every re-injected datagram "
+                   "with the model's bytes and runs the reference decoder on it (sequences mixing packets with and without a QoS flow).",
         assumptions=["payload length + 8 <= 65535 (16-bit length field)", "header form 0x34 as emitted by WritePacket"],
     ),
     "C19": dict(
